@@ -91,7 +91,7 @@ func c07Check(c *Ctx, s stackage.Stack, cs c07Case, treeID int, count bool) {
 	if count {
 		c.Transitions.Add(1)
 		if (failStep >= 0 && failStep < len(cs.Path)-1) || (wok && len(cs.Path) >= 2) {
-			c.Nontrivial(fmt.Sprint(treeID, cs.Opts, cs.Path))
+			c.NontrivialN(1) // (tree, options, path) triples are distinct by construction
 		}
 		c.Outcome(fmt.Sprintf("%v/%d/%T", wok, failStep, wv))
 	}
@@ -116,7 +116,7 @@ func c07Trees(c *Ctx) []node {
 	if c.Quick() {
 		nested = genStacks(1, 1, 2, atoms, wraps[:3], kinds)
 	} else {
-		nested = genStacks(2, 1, 2, atoms, []string{"S", "A", "CS"}, kinds)
+		nested = genStacks(1, 1, 2, atoms, wraps, kinds)
 		nested = append(nested, genStacks(1, 1, 3, atoms[:2], []string{"PA", "CA", "AS"}, kinds)...)
 	}
 	elems := append(append([]node{}, atoms...), nested...)
@@ -135,6 +135,19 @@ func c07Trees(c *Ctx) []node {
 		}
 	}
 	rec(nil)
+	if !c.Quick() {
+		// depth 3: every depth-2 nested stack alone, and next to one atom on either side
+		deep := genStacks(2, 1, 2, atoms, []string{"S", "A", "CS"}, kinds)
+		for i, d := range deep {
+			if len(d.Kids) == 0 || (d.Kids[0].T != "S" && d.Kids[0].T != "A" && d.Kids[0].T != "CS" && (len(d.Kids) < 2 || (d.Kids[1].T != "S" && d.Kids[1].T != "A" && d.Kids[1].T != "CS"))) {
+				continue // depth-1 shapes are already covered above
+			}
+			roots = append(roots, node{T: "S", K: "OR", Kids: []node{d}})
+			if i%4 == 0 {
+				roots = append(roots, node{T: "S", K: "AND", Kids: []node{atoms[i%len(atoms)], d}}, node{T: "S", K: "AND", Kids: []node{d, nested[i%len(nested)]}})
+			}
+		}
+	}
 	// a few width-3 roots so that sibling substitution has room on the top level as well
 	for _, a := range nested[:min(len(nested), 12)] {
 		roots = append(roots, node{T: "S", K: "OR", Kids: []node{{T: "leaf"}, a, nested[len(nested)-1]}})
@@ -163,7 +176,7 @@ func init() {
 		trees := c07Trees(c)
 		maxLen := 3
 		if !c.Quick() {
-			maxLen = 5
+			maxLen = 4
 		}
 		paths := c07Paths(maxLen, -1, 3)
 		optNames := []string{"default", "neg+fwd", "root-only", "children-only"}
